@@ -36,6 +36,10 @@ type c09Case struct {
 	// single caller - before the concurrent phase starts (counters inside the allocator or its
 	// lock are near whatever boundary they have)
 	Age int `json:"age,omitempty"`
+	// PreHold: that many frames are allocated by a single caller before the concurrent phase and
+	// kept for all of it (the lowest frames of a big pool are in long-term use: every call of the
+	// concurrent phase has to look through dozens of full bitmap words first)
+	PreHold int `json:"prehold,omitempty"`
 }
 
 const c09Patience = 8 * time.Second
@@ -82,6 +86,17 @@ func c09Run(c c09Case) (fail *vlib.Failure, rs c09Stats) {
 			return vlib.Failf("allocate/free pair %d of the single-caller warm-up: FreeFrame(%#x) failed: %s", i, uintptr(f), err.Message), rs
 		}
 	}
+	preHeld := map[uint64]bool{}
+	for i := 0; i < c.PreHold && len(preHeld) < usable; i++ {
+		f, err := alloc.AllocFrame()
+		if err != nil {
+			return vlib.Failf("single caller, allocation %d of %d before the concurrent phase: AllocFrame failed (%s) although %d frames are usable", i, c.PreHold, err.Message, usable), rs
+		}
+		if _, ok := index[uint64(f)]; !ok || preHeld[uint64(f)] || early[uint64(f)] || (uint64(f) >= kf0 && uint64(f) <= kf1) {
+			return vlib.Failf("single caller, allocation %d before the concurrent phase returned frame %#x, which is not a free usable frame", i, uint64(f)), rs
+		}
+		preHeld[uint64(f)] = true
+	}
 	initialReserved := alloc.reservedPages
 	outside := pmOutsideFrames(c.Map, func() map[uint64]bool {
 		m := map[uint64]bool{}
@@ -101,7 +116,7 @@ func c09Run(c c09Case) (fail *vlib.Failure, rs c09Stats) {
 	}
 	var usableList []uint64
 	for _, f := range avail {
-		if (f < kf0 || f > kf1) && !early[f] {
+		if (f < kf0 || f > kf1) && !early[f] && !preHeld[f] {
 			usableList = append(usableList, f)
 		}
 	}
@@ -118,6 +133,9 @@ func c09Run(c c09Case) (fail *vlib.Failure, rs c09Stats) {
 
 	// ---- concurrent phase --------------------------------------------------------
 	owner := make([]int32, len(avail))
+	for f := range preHeld {
+		owner[index[f]] = 1000 // held by the caller that took it before the workers started
+	}
 	var (
 		violations int64
 		firstMsg   atomic.Value
@@ -255,8 +273,12 @@ watch:
 			stillHeld[f] = true
 		}
 	}
-	if want := initialReserved + uint32(len(stillHeld)); alloc.reservedPages != want {
-		return vlib.Failf("after all workers stopped: reserved pages = %d, want initial %d + %d still held = %d", alloc.reservedPages, initialReserved, len(stillHeld), want), rs
+	workersHold := len(stillHeld)
+	if want := initialReserved + uint32(workersHold); alloc.reservedPages != want {
+		return vlib.Failf("after all workers stopped: reserved pages = %d, want initial %d + %d still held = %d", alloc.reservedPages, initialReserved, workersHold, want), rs
+	}
+	for f := range preHeld {
+		stillHeld[f] = true
 	}
 	for pi := range alloc.pools {
 		p := &alloc.pools[pi]
@@ -435,6 +457,14 @@ func TestVerifC09(t *testing.T) {
 			c.Map.Regions = append(c.Map.Regions, pmRegion{cur, frames * 4096, 1})
 			cur += frames*4096 + uint64(rapid.SampledFrom([]int{0x1000, 0x10000}).Draw(t, "gap"))
 		}
+		bigPool := rapid.IntRange(0, 9).Draw(t, "bigpool") == 0
+		if bigPool {
+			// one pool of some 4200-4400 frames whose first 4100 or so are in long-term use: what
+			// is left to fight over lies behind more than 64 full bitmap words
+			frames := uint64(rapid.IntRange(4200, 4400).Draw(t, "bigframes"))
+			c.Map.Regions = []pmRegion{{0x100000, frames * 4096, 1}}
+			c.PreHold = int(frames) - rapid.IntRange(8, 90).Draw(t, "leftover")
+		}
 		c.Map.KStart = 0x100000
 		c.Map.KEnd = 0x100000 + 1
 		if rapid.IntRange(0, 11).Draw(t, "aged") == 0 {
@@ -467,6 +497,9 @@ func TestVerifC09(t *testing.T) {
 		}
 		if c.Age >= 30000 {
 			labels = append(labels, "allocator-used-tens-of-thousands-of-times-before")
+		}
+		if c.PreHold >= 4096 {
+			labels = append(labels, "free-frames-behind-more-than-64-full-bitmap-words")
 		}
 		st.Add("calls_completed", rs.allocs+rs.frees+rs.ooms)
 		st.Add("lock_contention_events", rs.contention)
